@@ -43,12 +43,18 @@ type step struct {
 	Sum   int64   `json:"sum"`
 }
 
+type reloadSpec struct {
+	At    int   `json:"at"`
+	Decl2 []int `json:"decl2"`
+}
+
 type tcase struct {
-	Decl  []int   `json:"decl"`
-	Obs   []int64 `json:"obs"`
-	Maxes []int64 `json:"maxes"`
-	Steps []step  `json:"steps"`
-	Cum   []int64 `json:"cum"`
+	Reload reloadSpec `json:"reload"` // Decl2 non-empty: after At observations the program is reloaded with that list
+	Decl   []int      `json:"decl"`
+	Obs    []int64    `json:"obs"`
+	Maxes  []int64    `json:"maxes"`
+	Steps  []step     `json:"steps"`
+	Cum    []int64    `json:"cum"`
 }
 
 type got struct {
@@ -111,15 +117,22 @@ type prog struct {
 
 var progs = map[string]*prog{}
 
-func progFor(decl []int, how string) (*prog, error) {
+func declText(decl []int) string {
 	parts := make([]string, len(decl))
 	for i, b := range decl { // half units
 		parts[i] = strconv.FormatFloat(float64(b)/2, 'g', -1, 64)
 	}
-	key := strings.Join(parts, ", ")
-	if p, ok := progs[how+key]; ok {
+	return strings.Join(parts, ", ")
+}
+
+func progFor(decl []int, how string) (*prog, error) {
+	key := declText(decl)
+	if how == "fresh" { // a program of its own (the case reloads it)
+		how = "f"
+	} else if p, ok := progs[how+key]; ok {
 		return p, nil
 	}
+	cached := how + key
 	// two ways in, one program each (a metric assigned a float anywhere is Float-typed everywhere): a float-typed
 	// observation (fset -> SetFloat) and an int-typed one (iset -> datum.SetInt on the buckets)
 	src := "histogram h by k buckets " + key + "\n/^f (\\S+) (\\S+)$/ {\n  h[$1] = float($2)\n}\n"
@@ -141,7 +154,7 @@ func progFor(decl []int, how string) (*prog, error) {
 	if err := p.store.Add(p.m); err != nil {
 		return nil, err
 	}
-	progs[how+key] = p
+	progs[cached] = p
 	return p, nil
 }
 
@@ -198,9 +211,16 @@ func run(n int, c *tcase, expo bool) (g got, why string, err error) {
 			}
 		}
 	}
+	if len(c.Reload.Decl2) > 0 {
+		how = "fresh"
+	}
 	p, err := progFor(c.Decl, how)
 	if err != nil {
 		return g, "", err
+	}
+	if how == "fresh" {
+		how = "f"
+		defer delete(progs, "f"+declText(c.Decl)) // never reused
 	}
 	key := fmt.Sprintf("c%d", n)
 	ctx := context.Background()
@@ -211,6 +231,20 @@ func run(n int, c *tcase, expo bool) (g got, why string, err error) {
 	}
 	var d datum.Datum
 	for i, o := range c.Obs {
+		if len(c.Reload.Decl2) > 0 && i == c.Reload.At {
+			// the reload as the loader does it: compile the edited source, register its metric (Store.Add hands over
+			// the label values of the metric it replaces), run the new VM
+			p2, err := progFor(c.Reload.Decl2, "fresh")
+			if err != nil {
+				return g, "", err
+			}
+			delete(progs, "f"+declText(c.Reload.Decl2))
+			if err := p.store.Add(p2.m); err != nil {
+				return g, "", fmt.Errorf("Store.Add at reload: %v", err)
+			}
+			p2.store = p.store
+			p = p2
+		}
 		p.v.ProcessLogLine(ctx, logline.New(ctx, "c21", how+" "+key+" "+text(o)))
 		p.m.RLock()
 		lv := p.m.FindLabelValueOrNil([]string{key})
@@ -225,7 +259,31 @@ func run(n int, c *tcase, expo bool) (g got, why string, err error) {
 		}
 		g.Maxes = maxes
 		g.Steps = append(g.Steps, st)
-		if !eqInts(maxes, c.Maxes) {
+		if len(c.Reload.Decl2) > 0 && i >= c.Reload.At {
+			// after a reload with an edited list the statement does not say which layout the datum has (the code keeps
+			// the one it was made with); what it does say still holds: nothing counted so far is lost, and each
+			// observation is counted in exactly one bucket
+			var tot int64
+			for _, x := range st.N {
+				tot += x
+			}
+			if tot != int64(i+1) {
+				note(fmt.Sprintf("after a reload with `buckets %s` (made with `buckets %s`) and %d observations the bucket counts %v add up to %d",
+					declText(c.Reload.Decl2), declText(c.Decl), i+1, st.N, tot))
+			}
+			if i > c.Reload.At && len(g.Steps) >= 2 && len(g.Steps[len(g.Steps)-2].N) == len(st.N) {
+				prev, diff := g.Steps[len(g.Steps)-2].N, int64(0)
+				for k := range st.N {
+					if st.N[k] < prev[k] {
+						diff += 100
+					}
+					diff += st.N[k] - prev[k]
+				}
+				if diff != 1 {
+					note(fmt.Sprintf("observation %d after the reload changed the bucket counts from %v to %v", i+1, prev, st.N))
+				}
+			}
+		} else if !eqInts(maxes, c.Maxes) {
 			note(fmt.Sprintf("bucket upper bounds are %v, model says %v", maxes, c.Maxes))
 		} else if !eqInts(st.N, c.Steps[i].N) {
 			note(fmt.Sprintf("after observing %v the bucket counts are %v, model says %v", c.Obs[:i+1], st.N, c.Steps[i].N))
@@ -237,7 +295,7 @@ func run(n int, c *tcase, expo bool) (g got, why string, err error) {
 			note(fmt.Sprintf("Count is %d (GetCount %d) after %d observations", st.Count, datum.GetBucketsCount(d), i+1))
 		}
 	}
-	if d == nil || why != "" {
+	if d == nil || why != "" || len(c.Reload.Decl2) > 0 {
 		return g, why, nil
 	}
 	// exports of the final datum
